@@ -246,7 +246,10 @@ int main(int argc, char **argv) {
   Result R(A);
   g_mode = (int)A.geti("mode", 0);
   g_radiation = g_mode == 2;
-  const std::string prop = g_mode == 1 ? "C10" : g_mode == 2 ? "C01" : "C07";
+  const bool c04_only = g_mode == 3; // C04: fully periodic layouts only
+  if (c04_only)
+    g_mode = 1;
+  const std::string prop = c04_only ? "C04" : g_mode == 1 ? "C10" : g_mode == 2 ? "C01" : "C07";
   const std::string tmp = fast_tmpdir();
   const std::string workdir = tmp + fmt("/c07_%d", (int)getpid());
   mkdir(workdir.c_str(), 0700);
@@ -297,6 +300,13 @@ int main(int argc, char **argv) {
   } else {
     jobs.push_back({cfgs[1], 3, 1, 1});
     jobs.push_back({cfgs[4], 3, 0, 1});
+  }
+  if (c04_only && A.replay.empty()) {
+    std::vector< Job > keep;
+    for (auto &j : jobs)
+      if (j.cfg.px && j.cfg.py && j.cfg.pz)
+        keep.push_back(j);
+    jobs = keep;
   }
   if (g_mode == 2 && A.replay.empty()) {
     jobs.clear();
